@@ -6,6 +6,8 @@ seqspec = {
   "route": "abs_sorted" | "abs_ins" | "rel",                how the Sequence is constructed
   "perm":  [ints]                                            insertion order for "abs_ins" (any list; indices are taken modulo)
   "pad":   int | None,                                       pad() afterwards
+  "off_vel": [int | None, ...]                              release velocities of the note-offs (cyclic)
+  "double": None | "self" | "fresh"                         the sequence concatenated with itself (shared message objects)
   "post":  None | "normalise" | "refresh" | "read_abs" | "read_rel"     leaves the object in a different freshness state
 }
 """
@@ -34,9 +36,12 @@ def abs_messages(spec):
     """absolute Message objects (note-on/off pairs and meta events), canonical sorted order that respects the
     library's tie convention (off before on of the same key on one tick)"""
     msgs = []
-    for ch, p, on, off, v in spec.get("notes", []):
+    off_vel = spec.get("off_vel")
+    for i, (ch, p, on, off, v) in enumerate(spec.get("notes", [])):
         msgs.append(Message(message_type=MT.NOTE_ON, channel=ch, note=p, velocity=v, time=on))
-        msgs.append(Message(message_type=MT.NOTE_OFF, channel=ch, note=p, time=off))
+        # hand-built note-offs may carry a release velocity (the oracle's event tuples ignore it)
+        msgs.append(Message(message_type=MT.NOTE_OFF, channel=ch, note=p, time=off,
+                            velocity=off_vel[i % len(off_vel)] if off_vel else None))
     for e in spec.get("meta", []):
         msgs.append(meta_message(e))
     msgs.sort(key=lambda m: (m.time, _ORDER[m.message_type], m.channel, m.note or 0))
@@ -102,6 +107,13 @@ def sequence(spec):
             s.add_absolute_message(msgs[i])
     if spec.get("pad") is not None:
         s.pad(spec["pad"])
+    if spec.get("double") == "self":
+        # the sequence followed by itself: every message object occurs twice in the result (concatenate shares objects)
+        s.concatenate([s])
+    elif spec.get("double") == "fresh":
+        d = Sequence()
+        d.concatenate([s, s])
+        s = d
     post = spec.get("post")
     if post == "normalise":
         s.normalise()
@@ -124,6 +136,9 @@ def spec_events(spec):
         dur = max(dur, m.time)
     if spec.get("pad") is not None:
         dur = max(dur, spec["pad"])
+    if spec.get("double"):
+        ev = ev + [(e[0] + dur,) + tuple(e[1:]) for e in ev]
+        dur *= 2
     return ev, dur
 
 
